@@ -29,6 +29,8 @@ pub struct TableSpec {
     pub rows: Vec<Vec<Val>>,
     /// batch lengths (sum = rows.len()); an empty table has cuts = []
     pub cuts: Vec<usize>,
+    /// layout mem8c override: (column whose NULLs are clustered, NULLs first?, number of batches); None = chosen from the content
+    pub cluster: Option<(usize, bool, usize)>,
 }
 
 #[derive(Clone, Debug, Default)]
@@ -165,7 +167,7 @@ pub fn gen_catalog(r: &mut Rng, o: &CatOpts) -> Catalog {
         let cuts = if (o.multi_partition || o.big_rows.is_some()) && t == 0 {
             let k = 2 + r.below(7) as usize; let base = n / k; let mut v = vec![base; k]; v[k - 1] += n - base * k; v
         } else { cut_batches(r, n, o.max_batches) };
-        tables.push(TableSpec { name: format!("t{}", t), cols, rows, cuts });
+        tables.push(TableSpec { name: format!("t{}", t), cols, rows, cuts, cluster: None });
     }
     Catalog { tables }
 }
@@ -207,13 +209,16 @@ impl TableSpec {
         if n == 0 { return self.batches(); }
         let nullable: Vec<usize> = (0..self.cols.len()).filter(|&c| self.rows.iter().any(|r| r[c].is_null()) && self.rows.iter().any(|r| !r[c].is_null())).collect();
         let mut rows = self.rows.clone();
-        if !nullable.is_empty() {
+        let mut k = (6 + n % 7).min(n);
+        if let Some((col, nulls_first, kk)) = self.cluster {
+            if col < self.cols.len() { rows.sort_by_key(|r| r[col].is_null() != nulls_first); }
+            k = kk.clamp(1, n);
+        } else if !nullable.is_empty() {
             let h = n + self.cols.len() * 7 + self.name.len();
             let col = nullable[h % nullable.len()];
             let nulls_first = (h / nullable.len()) % 2 == 1;
             rows.sort_by_key(|r| r[col].is_null() != nulls_first);   // stable: keeps the relative order inside the two clusters
         }
-        let k = (6 + n % 7).min(n);
         let mut out = vec![]; let mut at = 0;
         for b in 0..k { let hi = n * (b + 1) / k; out.push(self.batch_of(&rows[at..hi])); at = hi; }
         out
@@ -241,7 +246,8 @@ impl Catalog {
             let rows = rows_from_json(&case["tables"][i]);
             let mut cuts: Vec<usize> = m["cuts"].as_array().unwrap_or(&empty).iter().map(|x| x.as_u64().unwrap_or(0) as usize).collect();
             if cuts.iter().sum::<usize>() != rows.len() { cuts = if rows.is_empty() { vec![] } else { vec![rows.len()] }; }
-            tables.push(TableSpec { name: m["name"].as_str().unwrap_or("t").to_string(), cols, rows, cuts });
+            let cluster = m["cluster"].as_array().and_then(|a| Some((a.first()?.as_u64()? as usize, a.get(1)?.as_bool()?, a.get(2)?.as_u64()? as usize)));
+            tables.push(TableSpec { name: m["name"].as_str().unwrap_or("t").to_string(), cols, rows, cuts, cluster });
         }
         Catalog { tables }
     }
